@@ -10,7 +10,7 @@
 From Coq Require Import List NArith.
 From Coq Require Import Permutation.
 From Jamm Require Import Bytes Codec Tree Spec Cursor SearchFacts CursorFacts SeekFacts CodecFacts.
-From Jamm Require Engine EngineAbs SpecPath EngineFacts EngineMergeFacts EngineModifyFacts EnginePathFacts EngineSpillFacts SpecPathFacts EngineRebalanceFacts EngineBridgeFacts EnginePins.
+From Jamm Require Engine EngineAbs SpecPath EngineFacts EngineMergeFacts EngineModifyFacts EnginePathFacts EngineSpillFacts SpecPathFacts EngineRebalanceFacts EngineBridgeFacts EnginePins EngineTxInvFacts EngineSpillBucketFacts.
 From Jamm Require Consts CLayout.
 From Coq Require String.
 Import Coq.Strings.String.StringSyntax. Delimit Scope string_scope with string.
@@ -200,3 +200,45 @@ Theorem C01_engine_constants_from_source :
    CLayout.sizeof "BucketMeta"%string = 16)%N.
 Proof. exact EnginePins.engine_constants_pinned. Qed.
 Print Assumptions C01_engine_constants_from_source.
+
+(* ---- a whole transaction up to the start of spill: from a strict committed state, the operations leave an overlay
+   meaning sem_tx ops (abs_db st) that satisfies the strict invariant in every opened bucket; rebalance then succeeds,
+   keeps every view, and leaves the overlay ready to be spilled ---- *)
+Theorem C01_partial_tx_until_spill : forall (st : Engine.db) (ops : list Engine.op) (ord : list Bytes.bytes) (st' : Engine.db),
+  EngineTxInvFacts.db_strict st -> Forall (EnginePathFacts.op_ok (Engine.d_disk st)) ops ->
+  Engine.run_tx st ops ord = Engine.Ok st' ->
+  exists (root' : Engine.bucket) (s' : Engine.txs) (b1 : Engine.bucket) (s1 : Engine.txs) (fv : nat) (v : EngineRebalanceFacts.bview),
+    EnginePathFacts.tx_fold st ops (Engine.root_bucket st, Engine.begin_w st) = Engine.Ok (root', s') /\
+    EnginePathFacts.ovl_wf (Engine.d_disk st) root' /\
+    EnginePathFacts.OvlAbs (Engine.d_disk st) root' (EngineAbs.sem_tx ops (EngineAbs.abs_db st)) /\
+    EnginePathFacts.tx_frees (Engine.begin_w st) s' /\
+    EngineTxInvFacts.SDeep (Engine.d_disk st) s' root' /\
+    Engine.rebalance Engine.fuel0 (Engine.d_disk st) root' s' = Engine.Ok (b1, s1) /\
+    EngineRebalanceFacts.Deep fv (Engine.d_disk st) s' root' v /\
+    EngineRebalanceFacts.Deep fv (Engine.d_disk st) s1 b1 v /\
+    EngineTxInvFacts.RDeep fv (Engine.d_disk st) s1 b1 v /\
+    EngineRebalanceFacts.tx_frame s' s1 /\ Engine.b_next b1 = Engine.b_next root'.
+Proof. exact EngineTxInvFacts.run_tx_rebalance_ready. Qed.
+Print Assumptions C01_partial_tx_until_spill.
+
+(* ---- commit: spilling a ready overlay (nested buckets, any spill order) and writing the free list yields a state
+   whose committed meaning is the overlay's meaning; the new free-list run overlaps neither the new tree nor a live page ---- *)
+Theorem C01_partial_commit_meaning : forall (st : Engine.db) (b : Engine.bucket) (s : Engine.txs) (ord : list Bytes.bytes)
+    (st' : Engine.db) (b1 : Engine.bucket) (s1 : Engine.txs) (keep live : list N) (m : Spec.snode),
+  Engine.rebalance Engine.fuel0 (Engine.d_disk st) b s = Engine.Ok (b1, s1) ->
+  EngineSpillFacts.fresh_inv live s1 ->
+  (forall x : N, In x keep -> In x live) ->
+  (forall x : N, In x keep -> EngineSpillFacts.wr_get (Engine.wr s1) x = None) ->
+  EngineSpillBucketFacts.SReady (Engine.d_disk st) keep b1 ->
+  EnginePathFacts.OvlAbs (Engine.d_disk st) b1 m ->
+  Engine.commit st b s ord = Engine.Ok st' ->
+  exists (r nx : N) (s2 : Engine.txs) (ord' : list Bytes.bytes) (alloc dead : list N),
+    Engine.spill_bucket Engine.fuel0 (Engine.d_disk st) b1 s1 ord = Engine.Ok (r, nx, s2, ord') /\
+    EngineSpillFacts.frame live s1 s2 alloc dead /\
+    Engine.d_root st' = r /\ Engine.d_next st' = nx /\ nx = Spec.b_next m /\
+    (In r alloc \/ r = Engine.b_root_page b1) /\
+    (forall x : N, (Engine.d_fl st' <= x /\ x < Engine.d_fl st' + Engine.d_fln st')%N -> ~ In x (alloc ++ live)) /\
+    EngineSpillBucketFacts.Mean (Engine.d_disk st') (Engine.d_root st') (Engine.d_next st') m /\
+    (EngineSpillBucketFacts.cpres 16 (Engine.d_disk st') (Engine.d_root st') -> EngineAbs.abs_db st' = m).
+Proof. exact EngineSpillBucketFacts.commit_meaning. Qed.
+Print Assumptions C01_partial_commit_meaning.
